@@ -25,9 +25,48 @@ HERE = os.path.dirname(os.path.abspath(__file__))
 TARGET = os.path.join(ROOT, "target-miri")
 DEFAULT_SEED = 0x5EEDA2A40C0FFEE5
 MASK = (1 << 64) - 1
-SHAPES = ["fanout", "convert", "chain", "scoped", "setkeys"]
 BASE_FLAGS = ["-Zmiri-preemption-rate=0.1"]
+MODES = {
+    "C33": {"shapes": ["fanout", "convert", "chain", "scoped", "setkeys"], "prop_of": {}, "bin": "mirisim", "features": [],
+            "rustflags": None, "target": "main", "evidence": os.path.join(ROOT, "evidence", "C33.json"), "property": "C33"},
+    # optional second witness for C43/C44; required by nothing; evidence stays out of /verif/evidence
+    "C43-miri": {"shapes": ["mutex", "lender"], "prop_of": {"mutex": "C43", "lender": "C44"}, "bin": "mirisim-afc", "features": ["afc"],
+                 "rustflags": "--cfg aranya_verif", "target": "afc", "evidence": os.path.join(ROOT, "target-miri", "C43-miri.evidence.json"),
+                 "property": "C43"},
+}
+MODES["C33"]["rule"] = ("VERIF_SEED -> chunk i: workload shape i mod 5 of (fanout, convert, chain, scoped, setkeys), workload seed mix(VERIF_SEED,i)>>11 "
+    "(passed in argv), miri seeds start+i*per..start+(i+1)*per with start = splitmix(VERIF_SEED) mod 1e6. One evaluation = one complete "
+    "interpretation of the workload by Miri under one -Zmiri-seed (pre-emption rate 0.1, weak-memory emulation, data-race, "
+    "use-after-free, double-free and leak detection on). 2-3 threads clone, read (as_str, ==, cmp, const_eq, hash), convert "
+    "Identifier<->Text and drop handles of one heap-backed (23..48 byte) value created on another thread, no synchronisation between "
+    "workers other than the value's own reference count. distinct = (shape, workload seed, FNV of the global order of worker "
+    "operations taken from a Relaxed ticket counter); non-trivial = the execution finished, >= 2 threads each held and dropped a handle whose "
+    "bytes live at the address of the one shared heap allocation (checked by address), >= 1 of them read the bytes, and no handle "
+    "pointed anywhere else. Executions on which Miri "
+    "reported an error are counted in evaluations but not in distinct_nontrivial.")
+MODES["C33"]["components"] = {"real": ["aranya_policy_text::{Text, Identifier} and repr::arc::ArcStr (the code under test, unmodified, no hooks)", "std::thread, allocator as modelled by Miri"],
+                              "stub": ["scheduler, memory model and allocator are Miri's (the simulator)"]}
+MODES["C43-miri"]["rule"] = ("OPTIONAL second witness, same chunk plan as C33 with shapes (mutex, lender). mutex: 2-3 threads x 1-3 lock/unlock rounds of the real "
+    "futex mutex (verif::SharedMutex -> mutex.rs sys_lock/sys_unlock) over two plain counters, real futex syscall as emulated by Miri; lender: "
+    "memory::lender Lender/Loan with a borrower thread, lender dropped on its own or a third thread, re-lend attempts, drop-counting payload. "
+    "distinct = (shape, workload seed, FNV of lock/loan event order); non-trivial: mutex = the spin-acquire or the futex sleep path was really "
+    "taken in that execution (hook probes, counting only), lender = >= 2 threads used the one loaned allocation.")
+MODES["C43-miri"]["components"] = {"real": ["aranya_fast_channels mutex.rs (futex path, real FUTEX_WAIT/FUTEX_WAKE via Miri's syscall emulation)", "aranya_fast_channels memory/lender.rs (BiArc, Lender, Loan)"],
+                                   "stub": ["scheduler, memory model and allocator are Miri's", "hook table installed with counting-only functions (every hook returns 'not handled')"]}
+MODE = MODES["C33"]
+SHAPES = MODE["shapes"]
 PROPERTY = "C33"
+
+
+def set_mode(mid):
+    global MODE, SHAPES, PROPERTY
+    MODE = MODES[mid]
+    SHAPES = MODE["shapes"]
+    PROPERTY = MODE["property"]
+
+
+def prop_of(shape):
+    return MODE["prop_of"].get(shape, PROPERTY)
 
 
 def harness_error(msg):
@@ -128,7 +167,7 @@ def manifest_dir(repo):
         path = os.path.join(HERE, "Cargo.toml")
         if not os.path.exists(path) or open(path).read() != text:
             open(path, "w").write(text)
-        return HERE, os.path.join(TARGET, "main")
+        return HERE, os.path.join(TARGET, MODE["target"])
     tag = hashlib.sha1(repo.encode()).hexdigest()[:10]
     d = os.path.join(TARGET, f"alt-{tag}")
     os.makedirs(d, exist_ok=True)
@@ -140,11 +179,13 @@ def manifest_dir(repo):
     src = os.path.join(d, "src")
     if not os.path.islink(src):
         os.symlink(os.path.join(HERE, "src"), src)
-    return d, os.path.join(d, "target")
+    return d, os.path.join(d, "target-" + MODE["target"])
 
 
 def miri_cmd(mdir, prog_args):
-    return ["cargo", "+nightly", "miri", "run", "--offline", "-q", "--manifest-path", os.path.join(mdir, "Cargo.toml"), "--"] + prog_args
+    feat = ["--features", ",".join(MODE["features"])] if MODE["features"] else []
+    return (["cargo", "+nightly", "miri", "run", "--offline", "-q", "--manifest-path", os.path.join(mdir, "Cargo.toml"), "--bin", MODE["bin"]]
+            + feat + ["--"] + prog_args)
 
 
 def run_miri(mdir, tdir, flags, prog_args, timeout):
@@ -154,6 +195,8 @@ def run_miri(mdir, tdir, flags, prog_args, timeout):
     for k in ("VERIF_SEED", "VERIF_TIER", "RUSTFLAGS"):
         env.pop(k, None)
     env["CARGO_TARGET_DIR"] = tdir
+    if MODE["rustflags"]:
+        env["RUSTFLAGS"] = MODE["rustflags"]
     env["MIRIFLAGS"] = " ".join(flags)
     env["CARGO_NET_OFFLINE"] = "true"
     t0 = time.time()
@@ -165,7 +208,7 @@ def run_miri(mdir, tdir, flags, prog_args, timeout):
                 "err": "TIMEOUT", "wall": time.time() - t0}
 
 
-EXEC_RE = re.compile(r"^MIRISIM-EXEC w=(\S+) ws=(\d+) threads=(\d+) sharers=(\d+) readers=(\d+) one_alloc=(\d) ops=(\d+) trace=([0-9a-f]+) order=(\S*)$")
+EXEC_RE = re.compile(r"^MIRISIM-EXEC w=(\S+) ws=(\d+) threads=(\d+) sharers=(\d+) readers=(\d+) one_alloc=(\d) ops=(\d+) trace=([0-9a-f]+) order=(\S*)(?: probes=(\S+))?$")
 
 
 def parse_exec(out):
@@ -174,11 +217,13 @@ def parse_exec(out):
         m = EXEC_RE.match(line.strip())
         if m:
             res.append({"w": m[1], "ws": int(m[2]), "threads": int(m[3]), "sharers": int(m[4]), "readers": int(m[5]),
-                        "one_alloc": int(m[6]), "ops": int(m[7]), "trace": m[8], "order": m[9]})
+                        "one_alloc": int(m[6]), "ops": int(m[7]), "trace": m[8], "order": m[9],
+                        "probes": {k: int(v) for k, v in (kv.split(":") for kv in m[10].split(","))} if m[10] else {}})
     return res
 
 
-def classify(err):
+def classify(err, prop=None):
+    prop = prop or PROPERTY
     """Map a single-seed Miri report to (class, sig, first error line)."""
     first = ""
     for line in err.splitlines():
@@ -208,14 +253,14 @@ def classify(err):
         kind = "other"
     # first frame inside the crate under test: a stable call-site name
     site = "unknown-site"
-    m = re.search(r"^\s*\d+: (<?aranya_policy_text::[^\n]*)$", err, re.M)
+    m = re.search(r"^\s*\d+: (<?aranya_(?:policy_text|fast_channels)::[^\n]*)$", err, re.M)
     if m:
         s = m[1].strip()
         s = re.sub(r" - shim.*$", "", s)
         s = re.sub(r"\s+", "_", s)
         site = s
     elif kind == "leak":
-        m = re.search(r"aranya_policy_text::[A-Za-z0-9_:<>]+", err)
+        m = re.search(r"aranya_(?:policy_text|fast_channels)::[A-Za-z0-9_:<>]+", err)
         if m:
             site = re.sub(r"\s+", "", m[0])
     # data race: the two access kinds are part of the signature
@@ -226,7 +271,7 @@ def classify(err):
         b = re.sub(r" of type `.*?`", "", m[2]).replace(" ", "-")
         extra = f":{a}/{b}"
     first = re.sub(r"alloc\d+", "allocN", first)
-    return f"{PROPERTY}.{kind}", f"{kind}:{site}{extra}", first
+    return f"{prop}.{kind}", f"{kind}:{site}{extra}", first
 
 
 def load_known():
@@ -256,7 +301,8 @@ def report(violations):
     unknown = 0
     printed = set()
     for v in violations:
-        k = next((k for k in known if k[0] == PROPERTY and k[1] == v["sig"]), None)
+        vp = v.get("property", PROPERTY)
+        k = next((k for k in known if k[0] == vp and k[1] == v["sig"]), None)
         if k:
             line = f"KNOWN-FINDING: property={k[0]} sig={k[1]} {k[2]}"
             if line not in printed:
@@ -264,7 +310,7 @@ def report(violations):
                 printed.add(line)
         else:
             unknown += 1
-            print(f"VIOLATION property={PROPERTY} replay={v['replay']}")
+            print(f"VIOLATION property={vp} replay={v['replay']}")
             print(f"  class={v['class']} sig={v['sig']} seed={v['seed']} :: {v['detail']}")
     return 1 if unknown else 0
 
@@ -272,9 +318,9 @@ def report(violations):
 def write_replay(seed, repo, shape, ws, miri_seed, flags, cls, sig, detail, tier):
     d = os.path.join(ROOT, "replays")
     os.makedirs(d, exist_ok=True)
-    path = os.path.join(d, f"{PROPERTY}-{seed:016x}-{shape}-{miri_seed}.json")
+    path = os.path.join(d, f"{prop_of(shape)}{'-miri' if MODE['prop_of'] else ''}-{seed:016x}-{shape}-{miri_seed}.json")
     json.dump({
-        "engine": "mirisim", "property": PROPERTY, "seed": seed,
+        "engine": "mirisim", "mode": MODE["bin"], "property": prop_of(shape), "seed": seed,
         "config": {"repo": repo, "tier": tier, "toolchain": "nightly (cargo miri)"},
         "workload": {"shape": shape, "workload_seed": ws},
         "miri_seed": miri_seed,
@@ -294,15 +340,25 @@ def extra_flags():
     return [f for f in os.environ.get("MIRISIM_EXTRA_FLAGS", "").split() if f]
 
 
+def build_failed(r):
+    e = r["err"]
+    return ("could not compile" in e or "error[E" in e or "error: failed to" in e or "error: no matching package" in e
+            or "error: package" in e or "is not installed" in e or "error: no bin target" in e)
+
+
 def started(r):
-    """Did Miri get as far as interpreting the program?"""
-    return "MIRISIM-" in r["out"] or "Trying seed" in r["err"] or "Undefined Behavior" in r["err"] or "memory leaked" in r["err"] or "panicked at" in r["err"]
+    """Did Miri get as far as interpreting the program? (The build is checked by the
+    probe run first, so after that a non-zero exit with an `error:` report is Miri's.)"""
+    if build_failed(r):
+        return False
+    return ("MIRISIM-" in r["out"] or "Trying seed" in r["err"] or r["rc"] == 0
+            or re.search(r"^error: ", r["err"], re.M) is not None or "panicked at" in r["err"])
 
 
 def replay_mode(args, repo_default):
     rf = json.load(open(args["replay"]))
-    if rf.get("engine") != "mirisim" or rf.get("property") != PROPERTY:
-        harness_error("not a mirisim/C33 replay file")
+    if rf.get("engine") != "mirisim" or rf.get("mode", "mirisim") != MODE["bin"]:
+        harness_error("not a mirisim replay file of this mode")
     repo = os.environ.get("MIRISIM_REPO") or repo_default
     mdir, tdir = manifest_dir(repo)
     w = rf["workload"]
@@ -313,16 +369,17 @@ def replay_mode(args, repo_default):
     if not started(r):
         sys.stderr.write(r["err"][-4000:])
         harness_error("Miri did not start (build failure?)")
-    cls, sig, first = classify(r["err"])
+    cls, sig, first = classify(r["err"], rf.get("property", PROPERTY))
     if args["verbose"]:
         sys.stderr.write(r["err"])
-    sys.exit(report([{"class": cls, "sig": sig, "detail": first, "seed": rf["seed"], "replay": args["replay"]}]))
+    sys.exit(report([{"class": cls, "sig": sig, "detail": first, "seed": rf["seed"], "replay": args["replay"], "property": rf.get("property", PROPERTY)}]))
 
 
 def main():
     args = parse_args(sys.argv[1:])
-    if args["id"] != PROPERTY:
-        harness_error(f"mirisim checks {PROPERTY} only, not {args['id']}")
+    if args["id"] not in MODES:
+        harness_error(f"mirisim checks {sorted(MODES)} only, not {args['id']}")
+    set_mode(args["id"])
     t_start = time.time()
     os.makedirs(TARGET, exist_ok=True)
     repo = os.environ.get("MIRISIM_REPO") or "/repo"
@@ -425,19 +482,27 @@ def main():
             sys.stderr.write(r["err"][-4000:])
             harness_error("Miri did not start while confirming a failing seed")
         confirmed += 1
-        cls, sig, first = classify(r["err"])
+        cls, sig, first = classify(r["err"], prop_of(c["shape"]))
         if sig in seen_sigs:
             seen_sigs[sig]["seeds"] += len(seeds)
             continue
         path = write_replay(seed, repo, c["shape"], c["ws"], s, flags, cls, sig, first, tier)
         v = {"class": cls, "sig": sig, "detail": f"{first} [workload {c['shape']}/{c['ws']}, miri seed {s}; {len(seeds)} of {c['hi'] - c['lo']} seeds of this chunk fail]",
-             "seed": seed, "replay": path, "seeds": len(seeds)}
+             "seed": seed, "replay": path, "seeds": len(seeds), "property": prop_of(c["shape"])}
         seen_sigs[sig] = v
         violations.append(v)
 
     # ---- evidence (measured counts only)
     evaluations = executed
-    nontrivial = {(e["w"], e["ws"], e["trace"]) for e in execs if e["threads"] >= 2 and e["sharers"] >= 2 and e["readers"] >= 1 and e["one_alloc"] == 1}
+    def is_nontrivial(e):
+        if e["w"] == "mutex":  # some contention was really observed (spin or futex sleep path)
+            return e["probes"].get("spin_acquired", 0) + e["probes"].get("sleep_path", 0) >= 1
+        return e["threads"] >= 2 and e["sharers"] >= 2 and e["readers"] >= 1 and e["one_alloc"] == 1
+    nontrivial = {(e["w"], e["ws"], e["trace"]) for e in execs if is_nontrivial(e)}
+    probe_sums = {}
+    for e in execs:
+        for k, v in e["probes"].items():
+            probe_sums[k] = probe_sums.get(k, 0) + v
     schedules = {(e["w"], e["ws"], e["trace"]) for e in execs}
     samples = []
     seen_shapes = set()
@@ -455,16 +520,7 @@ def main():
         "coverage": {
             "evaluations": evaluations,
             "distinct_nontrivial": len(nontrivial),
-            "rule": ("VERIF_SEED -> chunk i: workload shape i mod 5 of (fanout, convert, chain, scoped, setkeys), workload seed mix(VERIF_SEED,i)>>11 "
-                     "(passed in argv), miri seeds start+i*per..start+(i+1)*per with start = splitmix(VERIF_SEED) mod 1e6. One evaluation = one complete "
-                     "interpretation of the workload by Miri under one -Zmiri-seed (pre-emption rate 0.1, weak-memory emulation, data-race, "
-                     "use-after-free, double-free and leak detection on). 2-3 threads clone, read (as_str, ==, cmp, const_eq, hash), convert "
-                     "Identifier<->Text and drop handles of one heap-backed (23..48 byte) value created on another thread, no synchronisation between "
-                     "workers other than the value's own reference count. distinct = (shape, workload seed, FNV of the global order of worker "
-                     "operations taken from a Relaxed ticket counter); non-trivial = the execution finished, >= 2 threads each held and dropped a handle whose "
-                     "bytes live at the address of the one shared heap allocation (checked by address), >= 1 of them read the bytes, and no handle "
-                     "pointed anywhere else. Executions on which Miri "
-                     "reported an error are counted in evaluations but not in distinct_nontrivial."),
+            "rule": MODE["rule"],
             "samples": samples,
             "runs_per_hour": round(evaluations / max(time.time() - t_start, 1e-6) * 3600),
             "distinct_schedules": {"count": len(schedules), "measure": "FNV-1a of thread/op order by Relaxed global ticket, per (shape, workload seed)"},
@@ -473,13 +529,11 @@ def main():
             "probes": {"executions_by_shape": {s: sum(1 for e in execs if e["w"] == s) for s in SHAPES},
                        "three_thread_executions": sum(1 for e in execs if e["threads"] == 3),
                        "executions_with_2plus_reader_threads": sum(1 for e in execs if e["readers"] >= 2),
-                       "worker_ops_executed": sum(e["ops"] for e in execs)},
+                       "worker_ops_executed": sum(e["ops"] for e in execs), **probe_sums},
             "sim_steps": sum(e["ops"] for e in execs),
             "chunks": per_chunk,
             "miriflags": BASE_FLAGS + extra_flags() + ["-Zmiri-many-seeds=<lo>..<hi>", "-Zmiri-many-seeds-keep-going"],
-            "components": {"real": ["aranya_policy_text::{Text, Identifier} and repr::arc::ArcStr (the code under test, unmodified, no hooks)", "std::thread, allocator as modelled by Miri"],
-                           "stub": ["scheduler, memory model and allocator are Miri's (the simulator)"],
-                           "repo": repo},
+            "components": dict(MODE["components"], repo=repo),
             "determinism_audit": {"chunks_run_twice_in_separate_processes": len(audit_map), "identical": True, "log_hash": log_hash},
             "failing_seeds": len(failing),
             "violation_signatures": [{"class": v["class"], "sig": v["sig"], "replay": v["replay"], "seeds": v["seeds"]} for v in violations],
@@ -488,17 +542,17 @@ def main():
         },
         "assumptions": [
             "Miri's model of the Rust/C++11 memory model and its scheduler are trusted; it explores one schedule per seed, sampled, not exhaustive",
-            "only the workload shapes listed are exercised (<= 3 threads, <= 6 drawn operations per thread); rkyv/serde paths are not driven",
+            "only the workload shapes listed are exercised (<= 3 threads, <= 6 drawn operations per thread); rkyv/serde paths of the text types and the shared-memory tables of fast channels (real shm_open/mmap, which Miri cannot cross) are not driven",
             "x86_64-unknown-linux-gnu host target as interpreted by Miri",
         ],
         "wall_s": round(time.time() - t_start, 3),
         "violations": len(violations),
     }
-    evp = args["evidence"] or os.path.join(ROOT, "evidence", f"{PROPERTY}.json")
+    evp = args["evidence"] or MODE["evidence"]
     os.makedirs(os.path.dirname(evp), exist_ok=True)
     json.dump(ev, open(evp, "w"), indent=1)
 
-    print(f"mirisim {PROPERTY} tier={tier} seed={seed:#x} repo={repo}: {evaluations} miri seeds executed in {nchunks} workloads, "
+    print(f"mirisim {args['id']} tier={tier} seed={seed:#x} repo={repo}: {evaluations} miri seeds executed in {nchunks} workloads, "
           f"{len(nontrivial)} distinct non-trivial executions, {len(failing)} failing seeds, determinism audit ok "
           f"({len(audit_map)} chunks twice), log hash {log_hash}, wall {time.time() - t_start:.1f}s")
     sys.exit(report(violations))
